@@ -2,6 +2,8 @@ package vm
 
 import (
 	"fmt"
+
+	"bsim/ref"
 )
 
 // LineageOracle: C02. Along every derivation path, allow(child) => allow(ancestor)
@@ -157,3 +159,73 @@ func (HostileProbe) AfterStep(m *VM, rec *Rec) {
 	}
 }
 func (HostileProbe) AtEnd(m *VM) {}
+
+// QueryOracle: results of authorizer queries are exactly what the
+// authority-level closure (authorizer + authority block) yields, whatever later
+// blocks carry and whatever happened to their evaluation (C03: block facts and
+// rules reach only the block's own checks).
+type QueryOracle struct{ Prop string }
+
+func (o QueryOracle) AfterStep(m *VM, rec *Rec) {
+	if (rec.K != "verify" && rec.K != "azauth") || rec.V == nil || rec.Panic != "" || rec.V.Class == "" || rec.V.Class == "queried" {
+		return
+	}
+	op := &m.Plan.Ops[rec.I]
+	if len(rec.V.Queries) == 0 || len(rec.V.Queries) != len(op.Qs) {
+		return
+	}
+	out, ok := m.RefOutcome(rec)
+	if !ok || out.Uncertain {
+		return
+	}
+	clockMoved := rec.Call.StallNs > 0 || rec.Call.Idle > 0
+	partial := len(rec.V.Class) >= 5 && rec.V.Class[:5] == "limit" || clockMoved
+	for qi, q := range op.Qs {
+		qr := rec.V.Queries[qi]
+		if qr.Err != "" {
+			continue
+		}
+		rq := ref.Query(q, out.AuthorityFacts)
+		if rq.ExprErr || rq.Unbound {
+			continue
+		}
+		want := map[string]bool{}
+		for _, k := range rq.Heads.Keys() {
+			want[k] = true
+		}
+		m.Probe("query_scope_checked")
+		if partial {
+			m.Probe("query_scope_checked_after_limit")
+		}
+		extra := ""
+		for _, f := range qr.Facts {
+			if !want[f] {
+				extra = f
+				break
+			}
+		}
+		missing := ""
+		if !partial {
+			got := map[string]bool{}
+			for _, f := range qr.Facts {
+				got[f] = true
+			}
+			for k := range want {
+				if !got[k] {
+					missing = k
+				}
+			}
+		}
+		if extra != "" {
+			m.Violate(o.Prop, "query-sees-out-of-scope-fact", "an authorizer query returned a fact that the authority-level closure does not contain",
+				fmt.Sprintf("op %d (verdict %s): query %s returned %s\ntoken: %s\nauthorizer: %s", rec.I, rec.V.Class, q.Canon(), extra, canonOf(m.Tok(rec.V.Tok)), rec.V.Az.Canon()))
+			return
+		}
+		if missing != "" {
+			m.Violate(o.Prop, "query-misses-fact", "an authorizer query misses a fact of the authority-level closure",
+				fmt.Sprintf("op %d (verdict %s): query %s misses %s\ntoken: %s\nauthorizer: %s", rec.I, rec.V.Class, q.Canon(), missing, canonOf(m.Tok(rec.V.Tok)), rec.V.Az.Canon()))
+			return
+		}
+	}
+}
+func (o QueryOracle) AtEnd(m *VM) {}
